@@ -29,6 +29,8 @@ READS = {'GetStudy', 'ListStudies', 'GetTrial', 'ListTrials', 'GetOperation', 'L
 def attribute_sig(sig):
   """Which property a replay divergence speaks about."""
   rpc = sig['rpc']
+  if sig.get('meta_only'):
+    return 'C10'
   if rpc in ('SuggestTrials', 'GetOperation'):
     if sig.get('env_raise') or (sig.get('delivered') is not None and sig.get('n') is not None and sig['delivered'] != sig['n']):
       return 'C06' if (sig.get('env_raise') or sig['delivered'] < sig['n']) else 'C02'
@@ -45,6 +47,8 @@ def attribute_sig(sig):
 def attribute_verdict(clause, call):
   if clause.startswith('C'):
     return clause[:3]
+  if clause == 'A_state_meta':
+    return 'C10'        # the observed state differs from the model's only in metadata cells
   sig = {'rpc': call['rpc']}
   sig.update(replay_mod.env_tags(call))
   return attribute_sig(sig)
